@@ -33,6 +33,10 @@ type loopInfo struct {
 	// back edge must show they are still unchanged there (the loop frame invariant).
 	frameHeads map[Sort]Term
 	frameAll   bool // the loop body may write any heap sort: the back-edge check covers all of them
+	// under-approximating mode with unrolling: the states (and source blocks) that reached a back
+	// edge in the iteration being encoded
+	unrollBack      []*State
+	unrollBackPreds []*ssa.BasicBlock
 }
 
 type Frame struct {
@@ -48,6 +52,7 @@ type Frame struct {
 	edges    map[[2]int]*State
 	rets     []retSite
 	loops    map[*ssa.BasicBlock]*loopInfo
+	order    []*ssa.BasicBlock
 	defers   []*ssa.Defer
 	// source-name resolution
 	dbg map[string][]dbgRef
@@ -392,94 +397,275 @@ func (fr *Frame) encodeBody(entry *State) error {
 	}
 	fr.findLoops()
 	order := fr.rpo()
+	fr.order = order
+	done := map[*ssa.BasicBlock]bool{}
 	for _, b := range order {
-		var ins []*State
-		var inPreds []*ssa.BasicBlock
-		if b.Index == 0 {
-			ins = append(ins, entry.clone())
-			inPreds = append(inPreds, nil)
+		if done[b] {
+			continue
 		}
-		for _, p := range b.Preds {
-			if backEdge(p, b) {
+		ins, inPreds := fr.inStates(b, entry)
+		if li, ok := fr.loops[b]; ok && vc.ctx.firstIter && vc.ctx.unroll > 1 {
+			if err := fr.unrollLoop(li, ins, inPreds, done); err != nil {
+				return err
+			}
+			continue
+		}
+		if err := fr.encodeBlock(b, ins, inPreds, false); err != nil {
+			return err
+		}
+	}
+	return nil
+}
+
+// inStates: the states on the (non-back) edges into b that have been encoded, with their source
+// blocks; the function's entry state for block 0.
+func (fr *Frame) inStates(b *ssa.BasicBlock, entry *State) ([]*State, []*ssa.BasicBlock) {
+	var ins []*State
+	var inPreds []*ssa.BasicBlock
+	if b.Index == 0 && entry != nil {
+		ins = append(ins, entry.clone())
+		inPreds = append(inPreds, nil)
+	}
+	for _, p := range b.Preds {
+		if backEdge(p, b) {
+			continue
+		}
+		if st, ok := fr.edges[[2]int{p.Index, b.Index}]; ok {
+			ins = append(ins, st)
+			inPreds = append(inPreds, p)
+		}
+	}
+	return ins, inPreds
+}
+
+// encodeBlock encodes one basic block entered from the given states. unrolledHeader: b is a loop
+// header entered for one iteration of an unrolled loop (no invariant, no havoc: the phis take the
+// values of the edges it is entered by).
+func (fr *Frame) encodeBlock(b *ssa.BasicBlock, ins []*State, inPreds []*ssa.BasicBlock, unrolledHeader bool) error {
+	vc := fr.vc
+	st := vc.mergeStates(ins)
+	// phis
+	var phis []*ssa.Phi
+	for _, in := range b.Instrs {
+		if phi, ok := in.(*ssa.Phi); ok {
+			phis = append(phis, phi)
+		} else {
+			break
+		}
+	}
+	phiEntry := map[*ssa.Phi]Term{}
+	for _, phi := range phis {
+		var t Term
+		first := true
+		for i := len(ins) - 1; i >= 0; i-- {
+			p := inPreds[i]
+			if p == nil {
 				continue
 			}
-			if st, ok := fr.edges[[2]int{p.Index, b.Index}]; ok {
-				ins = append(ins, st)
-				inPreds = append(inPreds, p)
+			var ev Term
+			var err error
+			for k, pp := range b.Preds {
+				if pp == p {
+					ev, err = fr.value(phi.Edges[k])
+					break
+				}
 			}
-		}
-		st := vc.mergeStates(ins)
-		// phis
-		var phis []*ssa.Phi
-		for _, in := range b.Instrs {
-			if phi, ok := in.(*ssa.Phi); ok {
-				phis = append(phis, phi)
-			} else {
-				break
-			}
-		}
-		phiEntry := map[*ssa.Phi]Term{}
-		for _, phi := range phis {
-			var t Term
-			first := true
-			for i := len(ins) - 1; i >= 0; i-- {
-				p := inPreds[i]
-				if p == nil {
-					continue
-				}
-				var ev Term
-				var err error
-				for k, pp := range b.Preds {
-					if pp == p {
-						ev, err = fr.value(phi.Edges[k])
-						break
-					}
-				}
-				if err != nil {
-					return fr.unsupportedErr(phi, err)
-				}
-				if first {
-					t = ev
-					first = false
-				} else if i < len(st.mergeSels) {
-					t = Ite(st.mergeSels[i], ev, t)
-				} else {
-					t = Ite(ins[i].reach, ev, t)
-				}
+			if err != nil {
+				return fr.unsupportedErr(phi, err)
 			}
 			if first {
-				// unreachable block
-				srt, err := vc.tt.SortOf(phi.Type())
-				if err != nil {
-					return fr.unsupportedErr(phi, err)
-				}
-				t = vc.Fresh("dead", srt)
+				t = ev
+				first = false
+			} else if i < len(st.mergeSels) {
+				t = Ite(st.mergeSels[i], ev, t)
+			} else {
+				t = Ite(ins[i].reach, ev, t)
 			}
-			phiEntry[phi] = vc.Define(phi.Name(), t)
 		}
+		if first {
+			// unreachable block
+			srt, err := vc.tt.SortOf(phi.Type())
+			if err != nil {
+				return fr.unsupportedErr(phi, err)
+			}
+			t = vc.Fresh("dead", srt)
+		}
+		phiEntry[phi] = vc.Define(phi.Name(), t)
+	}
+	if li, ok := fr.loops[b]; ok && !unrolledHeader {
+		if err := fr.enterLoop(li, st, phis, phiEntry); err != nil {
+			return err
+		}
+		st = li.hdrState.clone()
+	} else {
 		if li, ok := fr.loops[b]; ok {
-			if err := fr.enterLoop(li, st, phis, phiEntry); err != nil {
-				return err
-			}
-			st = li.hdrState.clone()
-		} else {
+			li.preState = st.clone()
+			li.hdrState = st.clone()
+			li.phiHavoc = map[*ssa.Phi]Term{}
 			for _, phi := range phis {
-				fr.vals[phi] = phiEntry[phi]
+				li.phiHavoc[phi] = phiEntry[phi]
 			}
 		}
-		// instructions
+		for _, phi := range phis {
+			fr.vals[phi] = phiEntry[phi]
+		}
+	}
+	// instructions
+	for _, in := range b.Instrs {
+		if _, ok := in.(*ssa.Phi); ok {
+			continue
+		}
+		done, err := fr.instr(st, b, in)
+		if err != nil {
+			return err
+		}
+		if done {
+			break
+		}
+	}
+	return nil
+}
+
+// unrollLoop: the under-approximation with unrolling (used only to decide refutations in a function
+// whose contract no longer fits its loops). The loop is entered without invariant or havoc and its
+// body is encoded up to K times, each time from the states that reached a back edge in the copy
+// before; the paths still inside after the K-th copy are dropped. Every path that remains is a real
+// path of the function (callees by contract). Values defined in the loop and used after it are
+// those of the copy in which the loop was left.
+func (fr *Frame) unrollLoop(li *loopInfo, ins []*State, inPreds []*ssa.BasicBlock, done map[*ssa.BasicBlock]bool) error {
+	vc := fr.vc
+	vc.nondet = true
+	var body []*ssa.BasicBlock
+	for _, b := range fr.order {
+		if li.blocks[b] {
+			body = append(body, b)
+		}
+	}
+	blockAt := func(i int) *ssa.BasicBlock { return fr.fn.Blocks[i] }
+	var defined []ssa.Value
+	for _, b := range body {
 		for _, in := range b.Instrs {
-			if _, ok := in.(*ssa.Phi); ok {
+			if v, ok := in.(ssa.Value); ok {
+				defined = append(defined, v)
+			}
+		}
+	}
+	exits := map[[2]int][]*State{}
+	var exitKeys [][2]int
+	var leftIn []Term
+	var valSnaps []map[ssa.Value]Term
+	var tupSnaps []map[ssa.Value][]Term
+	curIns, curPreds := ins, inPreds
+	for it := 1; it <= vc.ctx.unroll && len(curIns) > 0; it++ {
+		li.unrollBack, li.unrollBackPreds = nil, nil
+		iterDone := map[*ssa.BasicBlock]bool{}
+		for _, b := range body {
+			if iterDone[b] {
 				continue
 			}
-			done, err := fr.instr(st, b, in)
-			if err != nil {
+			if b == li.header {
+				if err := fr.encodeBlock(b, curIns, curPreds, true); err != nil {
+					return err
+				}
+				continue
+			}
+			bins, bpreds := fr.inStates(b, nil)
+			if inner, ok := fr.loops[b]; ok {
+				if err := fr.unrollLoop(inner, bins, bpreds, iterDone); err != nil {
+					return err
+				}
+				continue
+			}
+			if err := fr.encodeBlock(b, bins, bpreds, false); err != nil {
 				return err
 			}
-			if done {
-				break
+		}
+		// the edges that leave the loop in this copy; the edges inside it are forgotten
+		var keys [][2]int
+		for k := range fr.edges {
+			keys = append(keys, k)
+		}
+		sort.Slice(keys, func(i, j int) bool {
+			if keys[i][0] != keys[j][0] {
+				return keys[i][0] < keys[j][0]
+			}
+			return keys[i][1] < keys[j][1]
+		})
+		var leave []Term
+		for _, k := range keys {
+			from, to := blockAt(k[0]), blockAt(k[1])
+			if !li.blocks[from] {
+				continue
+			}
+			if !li.blocks[to] {
+				if _, seen := exits[k]; !seen {
+					exitKeys = append(exitKeys, k)
+				}
+				exits[k] = append(exits[k], fr.edges[k])
+				leave = append(leave, fr.edges[k].reach)
+			}
+			delete(fr.edges, k)
+		}
+		leftIn = append(leftIn, vc.Define("left", Or(append([]Term{False}, leave...)...)))
+		vs := map[ssa.Value]Term{}
+		ts := map[ssa.Value][]Term{}
+		for _, v := range defined {
+			if t, ok := fr.vals[v]; ok {
+				vs[v] = t
+			}
+			if tp, ok := fr.tuples[v]; ok {
+				ts[v] = tp
 			}
 		}
+		valSnaps = append(valSnaps, vs)
+		tupSnaps = append(tupSnaps, ts)
+		curIns, curPreds = li.unrollBack, li.unrollBackPreds
+	}
+	li.unrollBack, li.unrollBackPreds = nil, nil
+	for _, k := range exitKeys {
+		fr.edges[k] = vc.mergeStates(exits[k])
+	}
+	n := len(valSnaps)
+	for _, v := range defined {
+		var t Term
+		have := false
+		for i := n - 1; i >= 0; i-- {
+			ti, ok := valSnaps[i][v]
+			if !ok {
+				continue
+			}
+			if !have {
+				t, have = ti, true
+			} else if ti.Sort == t.Sort {
+				t = Ite(leftIn[i], ti, t)
+			}
+		}
+		if have {
+			fr.vals[v] = t
+		}
+		var tp []Term
+		haveT := false
+		for i := n - 1; i >= 0; i-- {
+			ti, ok := tupSnaps[i][v]
+			if !ok {
+				continue
+			}
+			if !haveT {
+				tp, haveT = append([]Term{}, ti...), true
+			} else if len(ti) == len(tp) {
+				for j := range tp {
+					if ti[j].Sort == tp[j].Sort {
+						tp[j] = Ite(leftIn[i], ti[j], tp[j])
+					}
+				}
+			}
+		}
+		if haveT {
+			fr.tuples[v] = tp
+		}
+	}
+	for _, b := range body {
+		done[b] = true
 	}
 	return nil
 }
@@ -1881,6 +2067,11 @@ func (fr *Frame) loopBackEdge(li *loopInfo, from *ssa.BasicBlock, st *State) err
 		return fmt.Errorf("back edge to a block that is not a loop header")
 	}
 	if vc.ctx.firstIter {
+		if vc.ctx.unroll > 1 {
+			// unrolling: the next copy of the loop body starts from here (see unrollLoop)
+			li.unrollBack = append(li.unrollBack, st)
+			li.unrollBackPreds = append(li.unrollBackPreds, from)
+		}
 		return nil // the path ends here (under-approximation, see enterLoop)
 	}
 	phiBack := map[*ssa.Phi]Term{}
